@@ -7,12 +7,73 @@ LEVEL = 'other'
 RULES = {
     'C09.R1': 'one closed sign convention: evaluate_decision tests (mat·x - bias) <= 0 and sets bit i for a satisfied row; both path-polytope builders map '
               'label 1 -> (+mat,+bias), label 0 -> (-mat,-bias) (same factor on both fields, other labels panic) on the predicate of the edge\'s source node',
+    'C09.R3': 'path-condition stack discipline of PolyhedraGen::next: |predicates| = depth of the reported node after every call (also after deep returns and skips)',
     'C09.R2': 'find_terminal pushes the label it follows and returns the node it reached; PolyhedraGen::next builds the predicate from the parent edge of the node it reports',
 }
-FLOORS = {'C09.R1': 4, 'C09.R2': 3}
+FLOORS = {'C09.R1': 4, 'C09.R2': 3, 'C09.R3': 1}
 EXPLANATION = 'The evaluator and the two region builders implement the same closed half-space per label, for every tree and input (exact arithmetic).'
-DOES_NOT_DECIDE = ('the pop count 1+last_depth-depth after deep returns and skips (data-dependent stack arithmetic); disjoint interiors and coverage (set reasoning); '
+DOES_NOT_DECIDE = ('traversals started below the root with PolyhedraGen::with_root (the path above the start node is not reconstructed); disjoint interiors and coverage (set reasoning); '
                    'ordering/depth counters (C13)')
+
+
+def stack_discipline(ctx):
+    """PolyhedraGen::next keeps |predicates| = depth: under depth <= last_depth it pops exactly 1 + last_depth - depth entries,
+    then records last_depth := depth and pushes exactly one half-space when the node has a parent.
+    (before: |predicates| = last_depth; after the pops: depth - 1; after the push: depth.)"""
+    from ..effects import assigns, mut_calls
+    b = ctx.body('C09.R3', 'PolyhedraGen::next')
+    if b is None:
+        return
+    R = Resolver(b)
+    cfg = b.cfg()
+    LD = ('field', ('param', 'self'), 'last_depth')
+    PRED = ('field', ('param', 'self'), 'predicates')
+    pops = [(w.bb, w) for w in mut_calls(b, R) if w.callee.name == 'pop' and w.args[0] == PRED]
+    pushes = [(w.bb, w) for w in mut_calls(b, R) if w.callee.name == 'push' and w.args[0] == PRED]
+    ws = [w for w in assigns(b, R) if w.target == LD]
+    problems = []
+    depth = None
+    if len(ws) != 1:
+        problems.append('last_depth must be recorded exactly once per call')
+    else:
+        depth = ws[0].value
+        if not (depth[0] == 'field' and depth[2] == '0' and is_call(depth[1], 'DfsNodeData::extract')):
+            problems.append('last_depth is not set to the depth of the node just delivered')
+    if len(pops) != 1 or len(pushes) != 1:
+        problems.append('expected one pop site and one push site on the predicate stack')
+    if not problems:
+        # the pop loop runs over 0 .. (1 + last_depth) - depth, guarded by depth <= last_depth
+        rng = None
+        for bb, t in b.calls_to('Iterator::next'):
+            a = R.call_args(bb)[0]
+            if a[0] == 'agg' and isinstance(a[1], tuple) and a[1][1] == 'Range':
+                rng = a
+        def plain(e):
+            return e[1] if (e[0] == 'field' and e[2] == '0' and e[1][0] == 'bin') else e
+        ok_rng = False
+        if rng is not None and rng[2][0] == ('const', 0):
+            hi = plain(rng[2][1])
+            if hi[0] == 'bin' and hi[1].startswith('Sub') and s(hi[3]) == s(depth):
+                lo = plain(hi[2])
+                ok_rng = lo[0] == 'bin' and lo[1].startswith('Add') and {lo[2], lo[3]} == {('const', 1), LD}
+        if not ok_rng:
+            problems.append('the number of entries popped is not 1 + last_depth - depth')
+        lits = literals(b, R, pops[0][0])
+        if not any(l[0] == 'true' and l[1][0] == 'bin' and l[1][1] == 'Le' and s(l[1][2]) == s(depth) and l[1][3] == LD for l in lits) and \
+                not any(l[0] == 'true' and l[1][0] == 'bin' and l[1][1] == 'Ge' and l[1][2] == LD and s(l[1][3]) == s(depth) for l in lits):
+            problems.append('pops are not guarded by depth <= last_depth')
+        # order: pops (reading the old last_depth) precede the update, the push is outside the pop loop and happens at most once
+        hdr = [h for h in cfg.loop_headers() if isinstance(h, int) and pops[0][0] in cfg.loop_of(h)]
+        if not hdr or ws[0].bb in cfg.loop_of(hdr[0]) or pushes[0][0] in cfg.loop_of(hdr[0]) or cfg.reaches(ws[0].bb, pops[0][0]):
+            problems.append('last_depth is updated before/inside the pop loop, or the push is inside it')
+        plits = literals(b, R, pushes[0][0])
+        if not any(l[0] == 'is' and is_call(l[1], 'Tree::parent') and l[2] == frozenset(['Ok']) for l in plits):
+            problems.append('the push is not conditional on the node having a parent edge')
+    if problems:
+        for p_ in problems:
+            ctx.bad('C09.R3', 'PolyhedraGen::next#stack', p_, b.span)
+    else:
+        ctx.ok('C09.R3', 'PolyhedraGen::next#stack', 'pops 1 + last_depth - depth under depth <= last_depth, then last_depth := depth, then one push iff the node has a parent: |predicates| = depth after every call', b.span)
 
 
 def sign_table(b, R, mul_bb):
@@ -165,6 +226,7 @@ def run(ctx):
                 ok = node[0] == 'field' and node[2] == '1' and is_call(node[1], 'DfsNodeData::extract')
         (ctx.ok if ok else ctx.bad)('C09.R2', 'PolyhedraGen::next#reported-node',
                                     'the predicate pushed belongs to the parent edge of the node that is reported' if ok else 'the node whose parent edge is pushed is not the node reported', b.span)
+    stack_discipline(ctx)
     b = ctx.body('C09.R2', 'AffTree::evaluate')
     if b is not None:
         R = Resolver(b)
